@@ -201,6 +201,37 @@ def interleaved_traces(rng, n, steps):
     return out
 
 
+def reinit_traces(rng, n, steps):
+    """ONE scheme object initialised several times (same and different level pairs) with requests in between: every initialisation must
+    give the standard scheme again, nothing of the earlier use may survive"""
+    from sparseSpACE.combiScheme import CombiScheme
+    out = []
+    for _ in range(n):
+        D = rng.choice([1, 2, 2, 3])
+        cs = CombiScheme(D)
+        pairs = []
+        for _r in range(rng.choice([2, 3, 3])):
+            lmin = rng.randint(0, 2)
+            lmax = lmin + rng.randint(0, 3 if D <= 2 else 2)
+            if pairs and rng.random() < 0.6:
+                lmin, lmax = rng.choice(pairs)      # the same level pair again
+            pairs.append((lmin, lmax))
+            cap = lmax + (5 if D <= 2 else 3)
+            cs.init_adaptive_combi_scheme(lmax, lmin)
+            tr = {'d': D, 'lmin': lmin, 'lmax': lmax, 'fresh': True, 'closed': closed_form(D, lmin, lmax), 'events': [first_event(cs)],
+                  'origin': 're-initialised object (initialisation %d, level pairs so far %s)' % (len(pairs), pairs)}
+            reqs = []
+            for _s in range(rng.randint(1, steps)):
+                act = sorted(cs.active_index_set)
+                act = [a for a in act if max(a) < cap] or act
+                v = list(rng.choice(act)) if act and rng.random() < 0.85 else [rng.randint(max(lmin - 1, 0), cap) for _ in range(D)]
+                ev, _ = request(cs, v)
+                tr['events'].append(ev)
+                reqs.append(v)
+            out.append((tr, reqs))
+    return out
+
+
 def run(tier, seed):
     rep = Report(PROP, tier, seed, 'model_checking')
     rng = random.Random(seed)
@@ -254,6 +285,12 @@ def run(tier, seed):
             rep.count(1, key=('interleaved', tr['d'], tr['lmin'], tr['lmax'], tuple(map(tuple, reqs))))
     except Exception as ex:
         rep.violation('P_NoException', {'origin': 'interleaved objects', 'exception': type(ex).__name__}, {'exception': repr(ex)}, what='interleaved scheme objects raised %r' % ex)
+    try:
+        for tr, reqs in reinit_traces(rng, 60 if tier == 'quick' else 600, 8):
+            traces.append(tr)
+            rep.count(1, key=('reinit', tr['d'], tr['lmin'], tr['lmax'], tr['origin'], tuple(map(tuple, reqs))))
+    except Exception as ex:
+        rep.violation('P_NoException', {'origin': 're-initialised object', 'exception': type(ex).__name__}, {'exception': repr(ex)}, what='re-initialised scheme object raised %r' % ex)
     traces += adaptive_run_traces(rep, tier)
     return conclude(rep, traces)
 
